@@ -5,7 +5,9 @@ package webrtc
 // Monitor: generated ICECandidate values (grid over type × protocol × address form × tcptype × related
 // address × extension shape, then seeded random candidates) are pushed through the real ToJSON, parsed the
 // way AddICECandidate parses them, and handed to AddICECandidate of a PeerConnection with an applied
-// remote offer. Oracles (none shares code with icecandidate.go):
+// remote offer. The domain ("a candidate pion can represent") is the monitor's own predicate c25Representable over the
+// generated fields — not the verdict of ToICE, which ToJSON is built on: (0) ToICE must accept every such candidate.
+// Oracles (none shares code with icecandidate.go):
 //   (1) the parsed candidate has the generated foundation, component, protocol, priority, address, port,
 //       type, related address/port, tcptype and extension list (and so has newICECandidateFromICE of it);
 //   (2) AddICECandidate returns nil and the ICE agent's remote candidate set (white-box) afterwards holds
@@ -485,6 +487,76 @@ func c25Bogus(v, real string) string {
 	return v
 }
 
+// ---------------------------------------------------------------- domain: "a candidate pion can represent"
+
+// c25Representable is the monitor's own definition of the property's domain. It looks only at what the
+// generator knows it produced (never at the outcome of ICECandidate.ToICE, which ToJSON is built on).
+//
+// pion/ice v4 (candidate_host.go, candidate_server_reflexive.go, candidate_peer_reflexive.go,
+// candidate_relay.go, candidate_base.go:AddExtension) can hold a candidate iff
+//   - the type is host, srflx, prflx or relay;
+//   - the transport is udp or tcp;
+//   - the connection address is an IP literal (IPv4 or IPv6 text, a zone is allowed), or, for HOST candidates
+//     only, a name ending in ".local" (mDNS; ".invalid" likewise): srflx/prflx/relay constructors take
+//     IP literals only;
+//   - the related address is free text (not validated); port, priority, component, foundation are free;
+//   - every extension has a non-empty key (values may be empty), and a "tcptype" extension carries
+//     active | passive | so.
+//
+// Classes the generator produces that the UNCHANGED tree's ToICE rejects (seeds 1-5, quick and thorough):
+// exactly one, "name address on a non-host candidate". The other reasons below are generator invariants;
+// they are listed so that a generator change cannot silently widen the domain.
+func c25Representable(c *c25Case) (ok bool, reason string) {
+	switch c.Typ {
+	case "host", "srflx", "prflx", "relay":
+	default:
+		return false, "unknown candidate type"
+	}
+	if c.Protocol != "udp" && c.Protocol != "tcp" {
+		return false, "transport neither udp nor tcp"
+	}
+	switch c25AddrFamily(c) {
+	case "ipv4", "ipv6":
+	case "mdns":
+		if c.Typ != "host" {
+			return false, "name address on a non-host candidate"
+		}
+	default:
+		return false, "address form unknown to the monitor"
+	}
+	switch c.TCPType {
+	case "", "active", "passive", "so":
+	default:
+		return false, "tcptype outside active/passive/so"
+	}
+	for _, e := range c.Exts {
+		if e.Key == "" {
+			return false, "extension with an empty key"
+		}
+		if e.Key == "tcptype" {
+			return false, "second tcptype extension"
+		}
+		if strings.Contains(e.Key, " ") || strings.Contains(e.Value, " ") {
+			return false, "space inside an extension token" // not expressible in the candidate-attribute grammar
+		}
+	}
+
+	return true, ""
+}
+
+// c25AddrFamily is the address family as the generator recorded it (c25IPv4 / c25IPv6 / c25MDNS).
+func c25AddrFamily(c *c25Case) string {
+	f := c.AddrForm
+	if k := strings.IndexAny(f, "-+"); k >= 0 {
+		f = f[:k]
+	}
+
+	return f
+}
+
+// c25Class names the candidate class in violation signatures: type/transport/address family.
+func c25Class(c *c25Case) string { return c.Typ + "/" + c.Protocol + "/" + c25AddrFamily(c) }
+
 // ---------------------------------------------------------------- oracle 1: field comparison
 
 type c25Diff struct {
@@ -788,7 +860,8 @@ func TestVerifC25(t *testing.T) { //nolint:gocognit,cyclop,maintidx
 	run := kit.Start(t, "C25", "ICECandidate values: indices 0..1151 enumerate type{host,srflx,prflx,relay} × protocol{udp,tcp} × address{IPv4,IPv6,mDNS name} × "+
 		"tcptype{none,active,passive,so} × related address{present,absent} × extension shape{none,one,one-empty,first-empty,last-empty,both-empty}; "+
 		"further indices are seeded random candidates (port/priority/component edges, IPv6 text forms, 0–4 extensions with empty values, ufrag "+
-		"extension naming / not naming a remote ufrag, struct-built candidates without extensions). Only candidates ToICE() accepts are cases. "+
+		"extension naming / not naming a remote ufrag, struct-built candidates without extensions). Cases are the candidates the monitor's own "+
+		"predicate c25Representable calls representable (IP-literal address, or a .local name on a host candidate); a ToICE error on such a candidate is a violation. "+
 		"A case is non-trivial when it carries an optional part (related address, tcptype or an extension) or a non-IPv4 address; distinct by full candidate text")
 	defer run.Finish()
 	run.Assume("pion/ice v4 UnmarshalCandidate is the parser AddICECandidate uses (peerconnection.go strips \"candidate:\" and calls it); its accessors are trusted to report what it parsed")
@@ -838,7 +911,9 @@ func TestVerifC25(t *testing.T) { //nolint:gocognit,cyclop,maintidx
 			cand := c.build(rufrag)
 			want := c.allExts(rufrag)
 
-			// --- representable?
+			// --- representable? decided by c25Representable (own predicate over the generated fields), NOT by ToICE:
+			// ToICE is the core of ToJSON, the function under judgement, so its verdict cannot define the domain.
+			representable, why := c25Representable(c)
 			var toICEErr error
 			if p := c25Safely(func() { _, toICEErr = cand.ToICE() }); p != nil {
 				run.Case(c.desc(), true)
@@ -846,13 +921,22 @@ func TestVerifC25(t *testing.T) { //nolint:gocognit,cyclop,maintidx
 
 				continue
 			}
-			if toICEErr != nil {
+			switch {
+			case !representable && toICEErr != nil:
 				run.Count("unrepresentable", 1)
-				reason := "other: " + c25ErrClass(toICEErr)
-				if strings.HasSuffix(c.Address, ".local") && c.Typ != "host" {
-					reason = "name address on a non-host candidate"
-				}
-				run.Seen("unrepresentable_reason", reason)
+				run.Seen("unrepresentable_reason", why)
+
+				continue
+			case !representable:
+				// the conversion accepts a candidate outside the predicate: pion represents it, so the statement
+				// applies to it (what the ToICE-filtered monitor did as well); bookkept so that it stays visible
+				run.Count("model_divergence", 1)
+				run.Seen("model_divergence_kind", "toice_accepts_outside_predicate: "+why)
+			case toICEErr != nil:
+				run.Case(c.desc(), true)
+				run.Violation("toice-rejects:"+c25Class(c), fmt.Sprintf("ToICE rejects a candidate pion/ice can represent (%s, tcptype=%q, related=%t, %d extension(s)): %v — "+
+					"ToJSON().Candidate would be the bare %q. Candidate: %s", c25Class(c), c.TCPType, c.RelAddr != "", len(c.Exts), toICEErr,
+					"candidate:", c.desc()), i, c.detail(map[string]any{"error": toICEErr.Error(), "class": c25Class(c)}))
 
 				continue
 			}
@@ -894,7 +978,7 @@ func TestVerifC25(t *testing.T) { //nolint:gocognit,cyclop,maintidx
 				return c.detail(extra)
 			}
 			if value == "" {
-				run.Violation("tojson-empty", fmt.Sprintf("ToICE accepts the candidate but ToJSON().Candidate=%q (AddICECandidate would read it as end-of-candidates): %s",
+				run.Violation("tojson-empty", fmt.Sprintf("the candidate is representable and ToICE accepts it, but ToJSON().Candidate=%q (AddICECandidate would read it as end-of-candidates): %s",
 					init.Candidate, c.desc()), i, det(nil))
 
 				continue
